@@ -177,6 +177,12 @@ pub struct RunOpts {
     pub park_in_stepped: bool,
     /// never call flush()
     pub no_flush: bool,
+    /// collector points a stepped cycle parks at (0 = all)
+    pub cyield: u64,
+    /// workers also park before each command replayed from the overflow list
+    pub park_replay: bool,
+    /// retire all worker OS threads first, so that the threads (and their queue order) are fresh
+    pub fresh_threads: bool,
 }
 
 pub struct Execution {
@@ -274,6 +280,14 @@ pub fn run_program(
     opts: RunOpts,
 ) -> Result<Execution, EngineError> {
     set_str_mode(prog.str_mode);
+    CYIELD.store(if opts.cyield == 0 { u64::MAX } else { opts.cyield }, Ordering::SeqCst);
+    PARK_REPLAY.store(opts.park_replay, Ordering::SeqCst);
+    if opts.fresh_threads {
+        eng.cycle_finish()?;
+        eng.retire_workers()?;
+        eng.cycle_atomic()?;
+        eng.cycle_atomic()?;
+    }
     take_reports();
     take_hooklog();
     take_results();
